@@ -191,3 +191,28 @@ pub fn int_src(v: i64) -> String {
         v.to_string()
     }
 }
+
+// Hand-written programs judged against the reference interpreter: the text is
+// read into the model through the parser, the model is run by the reference,
+// and the binary must print the same and end in the same class.
+pub fn source_cases(ctx: &Ctx, property: &str, kind: &str, label: &str, srcs: Vec<(String, String)>) -> Vec<(Case, bool)> {
+    use rayon::prelude::*;
+    if !crate::backend::worker_available() {
+        ctx.note(&format!("in-process back-end unavailable: {label} skipped (their model is read back from the parser)"));
+        return vec![];
+    }
+    srcs.par_iter().filter_map(|(src, note)| {
+        let prog = match crate::util::model_from_source(src) {
+            Ok(p) => p,
+            Err(_) => { ctx.exclude(&format!("{label}: program not readable into the model")); return None; },
+        };
+        let rr = interp::run(&prog);
+        let e = match &rr.outcome {
+            Outcome::Ok => Expect::ok(rr.out.clone()),
+            Outcome::Err(_) => Expect::err(rr.out.clone()),
+            Outcome::Discard(w) => { ctx.exclude(&format!("{label}: outside the reference's domain ({w})")); return None; },
+        };
+        ctx.label(label);
+        Some((Case{property: property.to_string(), kind: kind.to_string(), srcs: vec![src.clone().into_bytes()], pred: Pred::Expect(e), note: note.clone()}, true))
+    }).collect()
+}
